@@ -15,7 +15,7 @@ What is regenerated (every definition is later proved equal to the hand model in
   gen_prod_guard         _app_stream.py                     `if max_external_bytes is not None and externalization_enabled:` /
                          `if predicted and cumulative_external_bytes + predicted > max_external_bytes:` in the producer loop,
                          before `cumulative_external_bytes += _flush_collector(...)`
-  gen_should_continue    _app_stream.py                     `should_continue = max_bytes is not None and resp_buf.tell() < max_bytes`
+  gen_should_continue    _app_stream.py                     `should_continue = max_bytes is not None and <write_sink|resp_buf>.tell() < max_bytes`
   (fact) the producer turn contains no `_enforce_response_budgets` call (the model has no post-flush check there).
 
 Expression language accepted: names / attribute chains from a per-site table, integer literals, `+`, comparisons
@@ -372,7 +372,10 @@ def _producer_site(fn: ast.FunctionDef, site: str) -> tuple[str, str]:
     sc = [s for s in after if isinstance(s, ast.Assign) and ast.unparse(s.targets[0]) == "should_continue"]
     if len(sc) != 1:
         raise TranslationBroken(site, "should_continue not assigned exactly once after the flush")
-    env2 = Env(site, {"max_bytes": ("w", O), "resp_buf.tell()": ("pos", N)})
+    # the position compared with the cap is the (uncompressed) body position: `write_sink.tell()` since the C11 fix
+    # (write_sink is resp_buf when no codec was negotiated), `resp_buf.tell()` before it -- the same number whenever no
+    # response codec is negotiated, which is the only configuration this property's check runs
+    env2 = Env(site, {"max_bytes": ("w", O), "resp_buf.tell()": ("pos", N), "write_sink.tell()": ("pos", N)})
     cont = boolean(sc[0].value, env2)
     nxt = after[after.index(sc[0]) + 1] if after.index(sc[0]) + 1 < len(after) else None
     if not (isinstance(nxt, ast.If) and ast.unparse(nxt.test) == "not should_continue" and isinstance(nxt.body[-1], ast.Break) and not nxt.orelse):
